@@ -104,9 +104,9 @@ class C13(RexDriver):
               'run replaying the same answers'),
              ('families', 'structured families: 2-4 strings of one shape '
               '(1-3 fragments over 7 character classes) whose run lengths '
-              '{0,1,2,3,4,6} differ in one fragment or in all x '
-              'variableLengthFrags off/on x extra letters none/_-. , tag '
-              'off/on'),
+              '{0,1,2,3,4,6} differ in one fragment or in all x {default, '
+              'variableLengthFrags, variableLengthFrags + extra letters '
+              '_-.}, tag off/on'),
              ('ties', 'two-shape quadruples and pairs of equal frequency '
               '(both orders) and two-shape sets differing in one fragment '
               'class x {default, max_patterns 1, 2, min_strings_per_pattern '
@@ -247,7 +247,6 @@ class C13(RexDriver):
                 for st in settings:
                     yield {'ex': xs, 'size': st, 'seed': None, 'prune': {}}
                     if n in sizes_all:
-                        yield {'ex': xs, 'size': st, 'seed': 0, 'prune': {}}
                         for p in PRUNE_POINTS:
                             yield {'ex': xs, 'size': st, 'seed': None,
                                    'prune': p}
@@ -286,7 +285,9 @@ class C13(RexDriver):
             opts = [o for o in allpts if prune_dev(o) == 0
                     and not o['strip'] and not o['remove_empties']
                     and o['dialect'] == 'portable'
-                    and o['extra_letters'] in (None, '_-.')]
+                    and o['extra_letters'] in (None, '_-.')
+                    and (o['variableLengthFrags']
+                         or o['extra_letters'] is None)]
         elif name == 'prune-vlf':
             opts = [o for o in allpts if prune_dev(o) <= 1
                     and not o['strip'] and not o['remove_empties']
